@@ -2,6 +2,8 @@
 // cmd/vdrive/suites.go imports the suite packages for effect.
 package reg
 
+import "os"
+
 type Cmd func(args []string)
 
 var Suites = map[string]map[string]Cmd{}
@@ -11,4 +13,13 @@ func Register(suite, mode string, c Cmd) {
 		Suites[suite] = map[string]Cmd{}
 	}
 	Suites[suite][mode] = c
+}
+
+// Repo is the checkout of github.com/tdewolff/parse/v2 this binary was built against: /repo, or $VERIF_REPO when the
+// framework is pointed at a scratch clone (mutation runs).
+func Repo() string {
+	if d := os.Getenv("VERIF_REPO"); d != "" {
+		return d
+	}
+	return "/repo"
 }
